@@ -18,6 +18,9 @@ Fixpoint str_eqb (a b : str) : bool :=
   | _, _ => false
   end.
 
+(** U+00AC, the raw-string quote *)
+Definition RAWQ : N := 172%N.
+
 (** U+029E, the marker Go code prefixes to a string to make it a keyword. *)
 Definition KW : N := 670%N.
 
